@@ -109,6 +109,11 @@ func init() {
 	for _, k := range []string{"(io.Closer).Close", "(io.ReadCloser).Close", "(io.WriteCloser).Close"} {
 		regModel(k, closeModel)
 	}
+	regModel("(error).Error", func(x *Exec, fr *Frame, st *State, a []Value, pos token.Pos, rt types.Type) (Value, bool) {
+		// Error() of any error value: a pure call returning some string (the package's own
+		// Error methods are checked separately)
+		return x.fresh(rt, "errstr"), true
+	})
 	regModel("io.ReadFull", func(x *Exec, fr *Frame, st *State, a []Value, pos token.Pos, rt types.Type) (Value, bool) {
 		s, ok := a[1].(VSlice)
 		if !ok {
